@@ -89,3 +89,26 @@ def branching_table(rng, n_mut, n_samples=2, depth=3000):
             rows.append({"mutation_id": "m%d" % i, "sample_id": s, "ref_counts": depth - alt, "alt_counts": alt,
                          "major_cn": 1, "minor_cn": 1, "normal_cn": 2})
     return rows, samples
+
+
+def heavy_table(rng, n_samples=10, n_big=3, big_size=(100, 140), n_weak=4, depth=(800, 1500)):
+    """A large valid input: a few big clusters of deeply sequenced mutations over many samples plus a few single
+    shallow mutations in clusters of their own.  Joint log-densities of trees over it are of magnitude 1e4-1e5.
+    Returns (rows, cluster rows)."""
+    samples = ["S%02d" % s for s in range(n_samples)]
+    rows, crows = [], []
+    mid = 0
+    prev = np.sort(rng.uniform(0.05, 1.0, size=(n_big, n_samples)), axis=0)[::-1]
+    for c in range(n_big + n_weak):
+        big = c < n_big
+        size = int(rng.integers(big_size[0], big_size[1] + 1)) if big else 1
+        for _ in range(size):
+            for si, s in enumerate(samples):
+                d = int(rng.integers(depth[0], depth[1] + 1)) if big else int(rng.integers(2, 9))
+                f = float(prev[c, si]) if big else float(rng.uniform(0.0, 1.0))
+                alt = int(rng.binomial(d, min(max(f / 2.0, 0.001), 0.999)))
+                rows.append({"mutation_id": "hm%04d" % mid, "sample_id": s, "ref_counts": d - alt, "alt_counts": alt,
+                             "major_cn": 1, "minor_cn": 1, "normal_cn": 2})
+                crows.append({"mutation_id": "hm%04d" % mid, "sample_id": s, "cluster_id": c, "cellular_prevalence": f})
+            mid += 1
+    return rows, crows
